@@ -73,6 +73,15 @@ func c09FileWriterDirect(r *Run, faults bool) {
 			if again := fw.AppendHeader(nil); !bytes.Equal(again, hdr) {
 				errs = append(errs, errors.New("two AppendHeader calls on one FileWriter give different headers"))
 			}
+			// the caller owns the buffers it handed over and got back: it reuses them for other data
+			keep := append([]byte{}, hdr...)
+			for i := range hdr {
+				hdr[i] = 0x2c
+			}
+			hdr = keep
+			if third := fw.AppendHeader(make([]byte, 0, 16)); !bytes.Equal(third, keep) {
+				errs = append(errs, errors.New("AppendHeader after the caller reused the buffer of an earlier call gives a different header"))
+			}
 			if err := fw.WriteHeader(w); err != nil {
 				return append(errs, err), nil, hdr
 			}
